@@ -132,18 +132,31 @@ class DWTInverse(nn.Module):
         ll = yl
         mode = lowlevel.mode_to_int(self.mode)
 
+        # The size of each scale. A scale given as None has the size implied
+        # by the nearest finer scale that was given
+        sizes = [None if h is None else h.shape[-2:] for h in yh]
+        for j in range(1, len(sizes)):
+            if sizes[j] is None and sizes[j-1] is not None:
+                sizes[j] = (
+                    pywt.dwt_coeff_len(sizes[j-1][0], self.g0_col.numel(),
+                                       self.mode),
+                    pywt.dwt_coeff_len(sizes[j-1][1], self.g0_row.numel(),
+                                       self.mode))
+
         # Do a multilevel inverse transform
-        for h in yh[::-1]:
+        for h, size in zip(yh[::-1], sizes[::-1]):
+            if size is None:
+                size = ll.shape[-2:]
+
+            # 'Unpad' added dimensions
+            if ll.shape[-2] > size[0]:
+                ll = ll[...,:-1,:]
+            if ll.shape[-1] > size[1]:
+                ll = ll[...,:-1]
             if h is None:
                 h = torch.zeros(ll.shape[0], ll.shape[1], 3, ll.shape[-2],
                                 ll.shape[-1], device=ll.device,
                                 dtype=ll.dtype)
-
-            # 'Unpad' added dimensions
-            if ll.shape[-2] > h.shape[-2]:
-                ll = ll[...,:-1,:]
-            if ll.shape[-1] > h.shape[-1]:
-                ll = ll[...,:-1]
             ll = lowlevel.SFB2D.apply(
                 ll, h, self.g0_row, self.g1_row, self.g0_col, self.g1_col, mode)
         return ll
